@@ -1,7 +1,8 @@
 """C09 — no stale state: any edit history followed by a solve equals a fresh start."""
 import hist
 
-MODULES = ["PyFV.Props.C09"]
+MODULES = ["PyFV.Props.C09", "PyFV.Props.GenEqState"]
+TRANSLATORS = {"T-state": "python3 harness/translate/tstate.py lean/PyFV/Gen/StateGen.lean"}
 RULE = ("histories over the edit/solve alphabet: random (lengths 4-16, one PRNG) plus ALL histories of the given depth over a reduced alphabet on one shared "
         "BC object with two variables; a case is distinct when its operation sequence is new")
 
